@@ -14,10 +14,13 @@
     functions; for products declared [hermitian] the two shortcuts are valid in the sense of
     the specification ([herm_low], [herm_diag]: explicit hypotheses - the half-sum of
     product_by_order is only valid for adjoint pairs, known finding D9 of C18).
-    Statements are for runs that do not run out of fuel (termination is not proved here);
-    the Examples show concrete terminating runs. *)
+    For the shipped Hermitian algorithm these two hypotheses are PROVED ([C09_sound_main]).
+    Statements are for runs that do not run out of fuel: termination is not proved
+    (DSL/Stratified.v defines the decidable stratification certificate, passed by both shipped
+    algorithms, but not yet the theorem "stratified -> terminates"); the Examples show
+    concrete terminating runs. *)
 From Coq Require Import String List ZArith Bool Arith.
-From PV.DSL Require Import Syntax Values Target Compile Interp Exec Laws Sound Main Regular Examples.
+From PV.DSL Require Import Syntax Values Target Compile Interp Exec Laws Sound Main Regular Examples HermMain PropsLemmas.
 From PV.Gen Require Import Algorithms_gen.
 Import ListNotations.
 Open Scope string_scope.
@@ -58,6 +61,40 @@ Example C09_main_example :
             = Ok (SVal v)
          /\ interp z_ops main_alg (SW z_ops (z_world no_faults) z_sfn) 60 (KN "H_tilde") (0, 0, [2]) = Some v.
 Proof. eexists. split; vm_compute; reflexivity. Qed.
+
+(** The shipped Hermitian algorithm WITHOUT the hypotheses about the Hermitian shortcuts: the
+    product "U'† @ U'" is declared hermitian, and U'† = W - V is the adjoint partner of
+    U' = W + V (W marked hermitian, V antihermitian, start = 0) - proved by induction on the
+    total order (DSL/HermMain.v, using the general lemma of DSL/HermValid.v).  Remaining
+    hypotheses on the scope: no [offdiag] (plain block diagonalization), [diag] commutes with
+    the adjoint on diagonal blocks, and the zero test of the structure is complete. *)
+Theorem C09_sound_main :
+  forall (V : Type) (O : vops V) (eqv : V -> V -> Prop), vlaws O eqv ->
+  forall (W : xworld V) (sfn : string -> list V -> index -> V),
+  (forall x, In x (xw_inputs W) -> has_at x = false) ->
+  (forall f l l' ix, Forall2 eqv l l' -> eqv (sfn f l ix) (sfn f l' ix)) ->
+  (forall f args ix r, xw_fn W f args ix = Ok r -> eqv (den O r) (sfn f (map (den O) args) ix)) ->
+  (forall a, eqv a (v0 O) -> vis0 O a = true) ->
+  xw_hasoff W = false ->
+  (forall x i n, eqv (vadj O (sfn "diag" [x] (i, i, n))) (sfn "diag" [vadj O x] (i, i, n))) ->
+  forall fuel calls0 rs os s' i tb name ix v,
+    run_all O main_alg (compile main_alg) W fuel (init_state main_alg W calls0) rs = (os, s') ->
+    Forall (fun o => o <> OutOfFuel) os ->
+    nth_error rs i = Some (tb, name, ix) -> nth_error os i = Some (Ok v) ->
+    forall f w, interp O main_alg (SW O W sfn) f (KN name) ix = Some w -> eqv (den O v) w.
+Proof. exact L_C09_sound_main. Qed.
+Print Assumptions C09_sound_main.
+
+Example C09_sound_main_example : world_ok z_ops eq main_alg (z_world no_faults) z_sfn.
+Proof.
+  apply (@main_world_ok Z z_ops eq z_laws).
+  - intros x [<-|[]]. reflexivity.
+  - intros f l l' ix F. assert (l = l') as -> by (induction F; subst; auto). reflexivity.
+  - apply z_tie.
+  - intros a ->. reflexivity.
+  - reflexivity.
+  - reflexivity.
+Qed.
 
 (** the shipped algorithms are in the fragment on which the model is claimed faithful *)
 Theorem C09_main_regular : regular main_alg ["H"] = true.
